@@ -1,9 +1,11 @@
 """C08 - The router dispatches to the first matching route with typed parameters."""
 from __future__ import annotations
 
+import asyncio
 import datetime
 import decimal
 import itertools
+import re
 import uuid
 
 from hypothesis import strategies as st
@@ -25,20 +27,47 @@ RULES = {
     "table": "Hypothesis: route tables of 1..6 routes (literals with regex metacharacters and Unicode, all placeholder types, mixed "
     "and adjacent placeholders, overlapping routes in every order) x paths sampled from a route's language and mutated into "
     "near-misses, dispatched through the real WSGI and ASGI routers; non-trivial = >= 2 routes match the path, or the path is a "
-    "near-miss mutation of a matching path",
+    "near-miss mutation of a matching path; requests also vary method, root path / SCRIPT_NAME and query string",
+    "chars": "enumerated: every code point of a list (all of U+0000..U+00FF, look-alike digits/slashes/letters, line and paragraph "
+    "separators, astral characters; thorough: everything below U+3100) alone / appended / prepended / inserted into a member of each "
+    "type's language and into literal text, plus percent-escape, '+', ';', '?', '#', blank and decomposed-accent strings, through both "
+    "routers; non-trivial = all",
+    "names": "enumerated: placeholder names (leading underscore, '_', upper case, digits, keywords; ASCII identifiers only, one a prefix of "
+    "another, the same name with different types in different routes) x all types; non-trivial = all",
+    "fixed": "enumerated: 15 hand-written tables (catch-all first/last, '' and '{x:any}' routes, chains in which unconvertible text has "
+    "to fall through to later routes, composed vs decomposed literals, case variants) x a pool of about 90 paths; non-trivial = all",
+    "request": "enumerated: 4 tables x 6 paths x 8 methods x root paths (none, foreign, a prefix of the path, the path itself) x 3 "
+    "query strings x {http, websocket scope} x {PATH_INFO present, omitted for the empty path as PEP 3333 allows}; non-trivial = "
+    "any field differs from a plain GET",
+    "wsgi_bytes": "enumerated: PATH_INFO with bytes that are not UTF-8 (stray continuation / lead bytes, truncated sequences, encoded "
+    "surrogate, over-long slash) after / inside text that matches a route; accepted: 404, or the dispatch the reference computes for "
+    "the Latin-1, the U+FFFD-replaced or the surrogate-escaped reading of the bytes; non-trivial = all",
+    "seq_fixed": "enumerated: every sequence of 2 and 3 requests over a pool of 7 paths on ONE router instance x endpoint behaviour "
+    "(copy its parameters / modify its parameter dict afterwards / keep a reference that is compared at the end); each step judged "
+    "like a table case; non-trivial = all",
+    "seq": "Hypothesis: random tables x 2..6 paths on one router instance x endpoint behaviour; non-trivial = some path occurs twice "
+    "or two steps reach different routes",
+    "nested": "enumerated: a router as the endpoint of a route of another router (the docstring's '/api/{_:any}' idiom), directly or "
+    "behind a Subpaths mount that hands it the rest of the path, x paths; the inner router must dispatch on the path it receives and "
+    "its endpoint must get every parameter of the inner route with its converted value; any further key must be a parameter of "
+    "the enclosing route with that route's converted value (on a name clash the inner route's value); non-trivial = the inner router is reached",
 }
 ASSUMPTIONS = [
     "which decomposition is chosen when adjacent placeholders make several possible is left open",
     "integers of more than 4000 digits may be answered 404 or with the exact value; with adjacent placeholders the split is ambiguous, so this "
     "applies to any path with a run of more than 4000 ASCII digits on a route that has an int placeholder",
     "route authors do not repeat a placeholder name within one route and do not put braces in literal text",
+    "placeholder names are ASCII identifiers ([A-Za-z_][A-Za-z0-9_]*)",
+    "which text a WSGI PATH_INFO that is not UTF-8 stands for is left open (404, Latin-1, U+FFFD or surrogate-escape reading)",
+    "what is sent to a websocket client when no route matches is not judged (only that no endpoint runs and nothing is raised)",
+    "an endpoint may modify the path parameter dict it received, and may still read it after later requests were dispatched",
 ]
 
 TYPES = ["str", "int", "decimal", "uuid", "date", "any", None]
 PYTYPE = {"str": str, None: str, "any": str, "int": int, "decimal": decimal.Decimal, "uuid": uuid.UUID, "date": datetime.date}
 
 
-_LONG_DIGITS = __import__("re").compile("[0-9]{4001,}")
+_LONG_DIGITS = re.compile("[0-9]{4001,}")
 
 
 def _huge_int(route, decs_raw, path=""):
@@ -116,14 +145,30 @@ def oracle_conv(case) -> Result:
 # ------------------------------------------------------------------------------------------
 # tables through both routers
 
+MODES = ("copy", "mutate", "hold")
 
-def _apps(routes):
+
+def _apps(routes, mode="copy", held=None, tag=None, override=None):
+    """Both routers over the same table.  Endpoint i records (side, i, copy of its path parameters).
+    mode 'mutate': the endpoint then empties and rewrites the dict it was given (its own request's data);
+    mode 'hold': it keeps the live dict, with a snapshot, in `held` (a handler that is still running -
+    streaming, background work, a concurrent ASGI request - while later requests are dispatched).
+    override = {index: (wsgi_app, asgi_app)} puts other applications (an inner router) at some routes."""
     calls = []
+
+    def after(side, i, params):
+        ident = i if tag is None else (tag, i)
+        calls.append((side, ident, dict(params)))
+        if mode == "hold" and held is not None:
+            held.append((side, ident, dict(params), params))
+        elif mode == "mutate":
+            params.clear()
+            params["clobbered-by-endpoint"] = True
 
     def wsgi_ep(i):
         def ep(environ, start_response):
             req = bwsgi.Request(environ)
-            calls.append(("wsgi", i, dict(req.path_params)))
+            after("wsgi", i, req.path_params)
             start_response("200 OK", [("content-type", "text/plain")])
             return [str(i).encode()]
 
@@ -131,27 +176,26 @@ def _apps(routes):
 
     def asgi_ep(i):
         async def ep(scope, receive, send):
+            if scope["type"] == "websocket":
+                after("asgi", i, basgi.WebSocket(scope, receive, send).path_params)
+                await send({"type": "websocket.close", "code": 1000})
+                return
             req = basgi.Request(scope, receive, send)
-            calls.append(("asgi", i, dict(req.path_params)))
+            after("asgi", i, req.path_params)
             await send({"type": "http.response.start", "status": 200, "headers": [(b"content-type", b"text/plain")]})
             await send({"type": "http.response.body", "body": str(i).encode()})
 
         return ep
 
-    w = bwsgi.Router(*[(ref.template(rt), wsgi_ep(i)) for i, rt in enumerate(routes)])
-    a = basgi.Router(*[(ref.template(rt), asgi_ep(i)) for i, rt in enumerate(routes)])
+    override = override or {}
+    w = bwsgi.Router(*[(ref.template(rt), override[i][0] if i in override else wsgi_ep(i)) for i, rt in enumerate(routes)])
+    a = basgi.Router(*[(ref.template(rt), override[i][1] if i in override else asgi_ep(i)) for i, rt in enumerate(routes)])
     return w, a, calls
 
 
-def oracle_table(case) -> Result:
-    r = Result()
-    routes, path = case["routes"], case["path"]
-    tpl = [ref.template(rt) for rt in routes]
-    ctx = f"routes {tpl!r} path {path!r}"
-    w, a, calls = _apps(routes)
-    exp_idx, admissible = None, []
-    huge = False
-    matching = 0
+def _expect(routes, path):
+    """(index of the first route with a decomposition or None, admissible parameter dicts, over-long int, number of matching routes)"""
+    exp_idx, admissible, huge, matching = None, [], False, 0
     for idx, rt in enumerate(routes):
         decs = ref.decompositions(rt, path)
         if decs:
@@ -162,75 +206,319 @@ def oracle_table(case) -> Result:
                 if not huge:
                     types = {tok[1]: tok[2] for tok in rt if tok[0] == "p"}
                     admissible = [{k: ref.convert(types[k], v) for k, v in d.items()} for d in decs]
-    rq = gw.areq(path=path)
-    runs = {"wsgi": gw.call_wsgi(w, rq), "asgi": gw.call_asgi(a, rq)}
-    for side, run in runs.items():
-        mine = [c for c in calls if c[0] == side]
-        if run.exc is not None:
-            r.fail(f"C08:{side}:raises:{type(run.exc).__name__}", f"{ctx}: {side} router raised {type(run.exc).__name__}: {run.exc}")
-            continue
-        if huge:
-            # accepted variation: the over-long integer is delivered exactly, or the route is treated
-            # as not matching (404 or a later route); only "no crash" and agreement of both sides apply
-            ok404 = run.status_code == 404 and not mine
-            ok200 = run.status_code == 200 and len(mine) == 1 and mine[0][1] >= exp_idx
-            if not (ok404 or ok200):
-                r.fail(f"C08:{side}:huge-int", f"{ctx[:300]}: status {run.status_code} calls {str(mine)[:200]}")
-            continue
-        if exp_idx is None:
-            if run.status_code != 404 or run.body != b"" or mine:
-                r.fail(f"C08:{side}:no-route-but-dispatched", f"{ctx}: no route matches, got status {run.status_code} body {run.body!r} endpoint calls {mine!r}")
-            continue
-        if len(mine) != 1:
-            r.fail(f"C08:{side}:endpoint-not-run", f"{ctx}: expected route #{exp_idx}, status {run.status_code}, endpoint calls {mine!r}")
-            continue
-        _, idx, params = mine[0]
-        if idx != exp_idx:
-            r.fail(f"C08:{side}:wrong-route", f"{ctx}: route #{idx} ran, first matching route is #{exp_idx}")
-            continue
-        if not ref.admits(routes[idx], path, params):
-            r.fail(f"C08:{side}:param-value", f"{ctx}: path_params {params!r} are not the converted values of any decomposition, e.g. {admissible[:2]!r}")
-            continue
-        types = {tok[1]: tok[2] for tok in routes[idx] if tok[0] == "p"}
-        for k, v in params.items():
-            check_roundtrip(r, types[k], v, ctx)
-    wc = [c[1:] for c in calls if c[0] == "wsgi"]
-    ac = [c[1:] for c in calls if c[0] == "asgi"]
-    if not r.failures and (wc != ac or runs["wsgi"].status_code != runs["asgi"].status_code):
-        r.fail("C08:interfaces-disagree", f"{ctx}: wsgi {runs['wsgi'].status_code} {wc!r} vs asgi {runs['asgi'].status_code} {ac!r}")
-    r.nontrivial = matching >= 2 or case.get("mutation") not in (None, "none", "unrelated")
-    r.label(f"matching={min(matching, 3)}", f"mut={case.get('mutation')}", f"routes={len(routes)}")
+    return exp_idx, admissible, huge, matching
+
+
+def _judge_side(r, side, routes, path, exp, exc, status, body, mine, ctx, judge_answer=True):
+    """One interface's verdict for one request.  mine = [(side, route index, parameters)] of the endpoints that ran."""
+    exp_idx, admissible, huge, _ = exp
+    if exc is not None:
+        r.fail(f"C08:{side}:raises:{type(exc).__name__}", f"{ctx}: {side} router raised {type(exc).__name__}: {exc}")
+        return
+    if huge:
+        # accepted variation: the over-long integer is delivered exactly, or the route is treated
+        # as not matching (404 or a later route); only "no crash" and agreement of both sides apply
+        ok404 = (status == 404 or not judge_answer) and not mine
+        ok200 = (status == 200 or not judge_answer) and len(mine) == 1 and mine[0][1] >= exp_idx
+        if not (ok404 or ok200):
+            r.fail(f"C08:{side}:huge-int", f"{ctx[:300]}: status {status} calls {str(mine)[:200]}")
+        return
+    if exp_idx is None:
+        if mine or (judge_answer and (status != 404 or body != b"")):
+            r.fail(f"C08:{side}:no-route-but-dispatched", f"{ctx}: no route matches, got status {status} body {body!r} endpoint calls {mine!r}")
+        return
+    if len(mine) != 1:
+        r.fail(f"C08:{side}:endpoint-not-run", f"{ctx}: expected route #{exp_idx}, status {status}, endpoint calls {mine!r}")
+        return
+    _, idx, params = mine[0]
+    if idx != exp_idx:
+        r.fail(f"C08:{side}:wrong-route", f"{ctx}: route #{idx} ran, first matching route is #{exp_idx}")
+        return
+    if not ref.admits(routes[idx], path, params):
+        r.fail(f"C08:{side}:param-value", f"{ctx}: path_params {params!r} are not the converted values of any decomposition, e.g. {admissible[:2]!r}")
+        return
+    types = {tok[1]: tok[2] for tok in routes[idx] if tok[0] == "p"}
+    for k, v in params.items():
+        check_roundtrip(r, types[k], v, ctx)
+
+
+def _labels(r, routes):
     for rt in routes:
         for tok in rt:
             if tok[0] == "p":
                 r.label(f"has-{tok[2] or 'default'}")
-    r.note = {"expected_route": exp_idx, "wsgi": runs["wsgi"].status_code, "asgi": runs["asgi"].status_code}
+
+
+def oracle_table(case) -> Result:
+    r = Result()
+    routes, path = case["routes"], case["path"]
+    tpl = [ref.template(rt) for rt in routes]
+    ctx = f"routes {tpl!r} path {path!r}"
+    if str(case.get("mutation", "")).startswith("char:"):
+        r.key = (tuple(tpl), path)
+    extra = {k: case[k] for k in ("method", "root_path", "query") if case.get(k)}
+    if extra:
+        ctx += f" request {extra!r}"
+    w, a, calls = _apps(routes)
+    exp = _expect(routes, path)
+    rq = gw.areq(path=path, method=case.get("method") or "GET", root_path=case.get("root_path") or "", query=(case.get("query") or "").encode("latin-1"))
+    runs = {"wsgi": gw.call_wsgi(w, rq), "asgi": gw.call_asgi(a, rq)}
+    for side, run in runs.items():
+        mine = [c for c in calls if c[0] == side]
+        _judge_side(r, side, routes, path, exp, run.exc, run.status_code, run.body, mine, ctx)
+    wc = [c[1:] for c in calls if c[0] == "wsgi"]
+    ac = [c[1:] for c in calls if c[0] == "asgi"]
+    if not r.failures and (wc != ac or runs["wsgi"].status_code != runs["asgi"].status_code):
+        r.fail("C08:interfaces-disagree", f"{ctx}: wsgi {runs['wsgi'].status_code} {wc!r} vs asgi {runs['asgi'].status_code} {ac!r}")
+    matching = exp[3]
+    r.nontrivial = matching >= 2 or case.get("mutation") not in (None, "none", "unrelated")
+    r.label(f"matching={min(matching, 3)}", f"mut={case.get('mutation')}", f"routes={len(routes)}")
+    if extra:
+        r.label(*[f"request-{k}" for k in extra])
+    _labels(r, routes)
+    r.note = {"expected_route": exp[0], "wsgi": runs["wsgi"].status_code, "asgi": runs["asgi"].status_code}
     return r
 
 
-SUBS = {"conv": oracle_conv, "table": oracle_table}
+# ------------------------------------------------------------------------------------------
+# request variants: method, root path, query, PATH_INFO omitted, websocket scope
+
+
+def _omit_empty_path_info(app):
+    """PEP 3333: CGI variables 'must be present, unless their value would be an empty string, in which
+    case they may be omitted'.  A server that leaves PATH_INFO out for the empty path."""
+
+    def server(environ, start_response):
+        if environ.get("PATH_INFO") == "":
+            del environ["PATH_INFO"]
+        return app(environ, start_response)
+
+    return server
+
+
+async def _run_websocket(app, scope):
+    sent = []
+    script = [{"type": "websocket.connect"}, {"type": "websocket.disconnect", "code": 1001}]
+
+    async def receive():
+        return script.pop(0) if script else {"type": "websocket.disconnect", "code": 1001}
+
+    async def send(message):
+        await asyncio.sleep(0)
+        sent.append(dict(message))
+
+    try:
+        await app(scope, receive, send)
+    except Exception as exc:  # noqa: BLE001 - reported as a failure of the case by the caller
+        return exc, sent
+    return None, sent
+
+
+def oracle_request(case) -> Result:
+    r = Result()
+    routes, path = case["routes"], case["path"]
+    method, root_path, query = case.get("method") or "GET", case.get("root_path") or "", case.get("query") or ""
+    omit, ws = bool(case.get("omit_path_info")), bool(case.get("ws"))
+    tpl = [ref.template(rt) for rt in routes]
+    ctx = f"routes {tpl!r} path {path!r} method {method} root_path {root_path!r} query {query!r}" + (" PATH_INFO omitted" if omit else "") + (" websocket scope" if ws else "")
+    w, a, calls = _apps(routes)
+    exp = _expect(routes, path)
+    rq = gw.areq(path=path, method=method, root_path=root_path, query=query.encode("latin-1"))
+    if not ws:
+        run = gw.call_wsgi(_omit_empty_path_info(w) if omit else w, rq)
+        _judge_side(r, "wsgi", routes, path, exp, run.exc, run.status_code, run.body, [c for c in calls if c[0] == "wsgi"], ctx)
+        run = gw.call_asgi(a, rq)
+        _judge_side(r, "asgi", routes, path, exp, run.exc, run.status_code, run.body, [c for c in calls if c[0] == "asgi"], ctx)
+    else:
+        scope = gw.make_scope(rq)
+        scope["type"] = "websocket"
+        scope["scheme"] = "ws"
+        scope["subprotocols"] = []
+        del scope["method"]
+        exc, sent = gw.run_sync(_run_websocket(a, scope))
+        # what a client is told when nothing matches is not judged on this scope type
+        _judge_side(r, "asgi-websocket", routes, path, exp, exc, None, b"", [("asgi-websocket",) + c[1:] for c in calls if c[0] == "asgi"], ctx, judge_answer=False)
+    r.nontrivial = bool(method != "GET" or root_path or query or omit or ws)
+    r.label(f"method={method}", "root=" + ("none" if not root_path else "path" if root_path == path else "prefix" if path.startswith(root_path) else "foreign"),
+            f"query={bool(query)}", f"omit={omit}", f"ws={ws}", "match" if exp[0] is not None else "no-match")
+    return r
+
+
+# ------------------------------------------------------------------------------------------
+# WSGI PATH_INFO that is not UTF-8
+
+
+def oracle_wsgi_bytes(case) -> Result:
+    r = Result()
+    routes, raw = case["routes"], bytes(case["path_bytes"])
+    tpl = [ref.template(rt) for rt in routes]
+    ctx = f"routes {tpl!r} PATH_INFO bytes {raw!r}"
+    try:
+        readings = [raw.decode("utf-8")]
+    except UnicodeDecodeError:
+        readings = [raw.decode("latin-1"), raw.decode("utf-8", "replace"), raw.decode("utf-8", "surrogateescape")]
+    w, _, calls = _apps(routes)
+    run = gw.call_wsgi(w, gw.areq(path_bytes=raw))
+    r.nontrivial = True
+    r.label("undecodable" if len(readings) > 1 else "utf-8")
+    if run.exc is not None:
+        r.fail(f"C08:wsgi-bytes:raises:{type(run.exc).__name__}", f"{ctx}: router raised {type(run.exc).__name__}: {run.exc}")
+        return r
+    if not calls:
+        if run.status_code != 404:
+            r.fail("C08:wsgi-bytes:no-endpoint-no-404", f"{ctx}: no endpoint ran, status {run.status_code}")
+        elif len(readings) == 1 and _expect(routes, readings[0])[0] is not None:
+            r.fail("C08:wsgi-bytes:endpoint-not-run", f"{ctx}: 404 although route #{_expect(routes, readings[0])[0]} matches")
+        return r
+    ok = False
+    for text in readings:
+        exp_idx = _expect(routes, text)[0]
+        if exp_idx is not None and len(calls) == 1 and calls[0][1] == exp_idx and ref.admits(routes[exp_idx], text, calls[0][2]):
+            ok = True
+    if not ok:
+        r.fail("C08:wsgi-bytes:dispatch-under-no-reading", f"{ctx}: endpoint calls {calls!r} with status {run.status_code}; under the readings "
+               f"{readings!r} the first matching routes are {[_expect(routes, t)[0] for t in readings]!r}")
+    return r
+
+
+# ------------------------------------------------------------------------------------------
+# several requests on one router instance
+
+
+def oracle_seq(case) -> Result:
+    r = Result()
+    routes, paths, mode = case["routes"], case["paths"], case.get("mode", "copy")
+    tpl = [ref.template(rt) for rt in routes]
+    held = []
+    w, a, calls = _apps(routes, mode, held)
+    reached = set()
+    for step, path in enumerate(paths):
+        ctx = f"routes {tpl!r}, endpoints in mode {mode!r}, request #{step + 1} of {paths!r}, path {path!r}"
+        exp = _expect(routes, path)
+        reached.add(exp[0])
+        rq = gw.areq(path=path)
+        before = len(calls)
+        wrun = gw.call_wsgi(w, rq)
+        wcalls = calls[before:]
+        before = len(calls)
+        arun = gw.call_asgi(a, rq)
+        acalls = calls[before:]
+        n = len(r.failures)
+        _judge_side(r, "wsgi", routes, path, exp, wrun.exc, wrun.status_code, wrun.body, [c for c in wcalls if c[0] == "wsgi"], ctx)
+        _judge_side(r, "asgi", routes, path, exp, arun.exc, arun.status_code, arun.body, [c for c in acalls if c[0] == "asgi"], ctx)
+        if len(r.failures) > n:
+            # name the clause: the same request is judged alone by the other sub-checks
+            for f in r.failures[n:]:
+                f.bucket = f.bucket.replace("C08:", "C08:seq:", 1)
+            break
+    if not r.failures:
+        for side, ident, snapshot, live in held:
+            if live != snapshot:
+                r.fail(f"C08:seq:{side}:params-changed-by-later-request", f"routes {tpl!r} requests {paths!r}: the parameters {snapshot!r} handed to route #{ident} "
+                       f"read {live!r} after the later requests were dispatched")
+                break
+    r.nontrivial = len(set(paths)) < len(paths) or len(reached) >= 2
+    r.label(f"mode={mode}", f"steps={len(paths)}", f"routes-reached={min(len(reached), 3)}", "repeat" if len(set(paths)) < len(paths) else "distinct")
+    r.weight = max(1, len(paths))
+    return r
+
+
+# ------------------------------------------------------------------------------------------
+# a router as an endpoint of a router
+
+
+def oracle_nested(case) -> Result:
+    r = Result()
+    outer, inner, mount, path, prefix = case["outer"], case["inner"], case["mount"], case["path"], case.get("prefix") or ""
+    ctx = f"outer routes {[ref.template(t) for t in outer]!r} (route #{mount} -> " + (f"Subpaths({prefix!r}) -> " if prefix else "") + f"inner router {[ref.template(t) for t in inner]!r}) path {path!r}"
+    iw, ia, icalls = _apps(inner, tag="inner")
+    if prefix:
+        # the mount hands the inner router the rest of the path (its request path)
+        iw, ia = bwsgi.Subpaths((prefix, iw)), basgi.Subpaths((prefix, ia))
+        inner_path = path[len(prefix):] if path == prefix or path.startswith(prefix + "/") else None
+    else:
+        inner_path = path
+    ow, oa, ocalls = _apps(outer, tag="outer", override={mount: (iw, ia)})
+    oexp = _expect(outer, path)
+    rq = gw.areq(path=path)
+    for side, run in (("wsgi", gw.call_wsgi(ow, rq)), ("asgi", gw.call_asgi(oa, rq))):
+        omine = [(s, ident[1], p) for s, ident, p in ocalls if s == side]
+        imine = [(s, ident[1], p) for s, ident, p in icalls if s == side]
+        if oexp[0] != mount:
+            if imine:
+                r.fail(f"C08:nested:{side}:inner-reached", f"{ctx}: inner endpoints ran {imine!r} although outer route #{oexp[0]} comes first")
+            _judge_side(r, side, outer, path, oexp, run.exc, run.status_code, run.body, omine, ctx)
+            continue
+        if omine:
+            r.fail(f"C08:nested:{side}:wrong-route", f"{ctx}: outer endpoints ran {omine!r}, the first matching outer route is the inner router")
+            continue
+        n = len(r.failures)
+        iexp = _expect(inner, inner_path) if inner_path is not None else (None, [], False, 0)
+        # the statement fixes what arrives for the matched (inner) route's placeholders; parameters of the enclosing
+        # route may be visible as well, but only with the values that route's placeholders denote
+        judged = imine
+        if len(imine) == 1 and iexp[0] is not None and imine[0][1] == iexp[0]:
+            own = {tok[1] for tok in inner[iexp[0]] if tok[0] == "p"}
+            got = imine[0][2]
+            extra = {k: v for k, v in got.items() if k not in own}
+            judged = [(imine[0][0], imine[0][1], {k: v for k, v in got.items() if k in own})]
+            if extra and not any(all(k in adm and adm[k] == v and type(adm[k]) is type(v) for k, v in extra.items()) for adm in oexp[1]):
+                r.fail(f"C08:{side}:foreign-params", f"{ctx}: the inner endpoint got {got!r}; {extra!r} are neither parameters of the inner route "
+                       f"{ref.template(inner[iexp[0]])!r} nor the converted parameters of the enclosing route, e.g. {oexp[1][:2]!r}")
+        _judge_side(r, side, inner, inner_path if inner_path is not None else path, iexp, run.exc, run.status_code, run.body, judged, ctx + f" [inner router, its request path {inner_path!r}]")
+        for f in r.failures[n:]:
+            f.bucket = f.bucket.replace("C08:", "C08:nested:", 1)
+    r.nontrivial = oexp[0] == mount and inner_path is not None
+    r.label("inner" if oexp[0] == mount else "outer" if oexp[0] is not None else "none", "via-mount" if prefix else "direct")
+    return r
+
+
+SUBS = {
+    "conv": oracle_conv,
+    "table": oracle_table,
+    "chars": oracle_table,
+    "names": oracle_table,
+    "fixed": oracle_table,
+    "request": oracle_request,
+    "wsgi_bytes": oracle_wsgi_bytes,
+    "seq_fixed": oracle_seq,
+    "seq": oracle_seq,
+    "nested": oracle_nested,
+}
 
 # ------------------------------------------------------------------------------------------
 # generation
 
 CONV_ALPHABET = ["0", "1", "9", ".", "-", "a", "/", "\n", "٣", "A"]
 
+CONV_EXTRA = [
+    "2021-03-07", "2021-13-45", "0000-01-01", "2020-02-29", "2021-02-29", "2021-1-01", "2021-03-7", "2021-3-7", "2021-03-007", "21-03-07", "٢٠٢١-٠٣-٠٧", "2021-03-07\n",
+    "90478484-0988-45fc-91fe-757d90136892", "90478484-0988-45FC-91fe-757d90136892", "90478484098845fc91fe757d90136892",
+    "9047848-40988-45fc-91fe-757d90136892", "----90478484098845fc91fe757d90136892", "90478484098845fc91fe757d90136892----", "90478484--098845fc-91fe-757d90136892",
+    "90478484-0988-45fc-91fe-757d9013689-", "-0478484-0988-45fc-91fe-757d90136892", "90478484-0988-45fc-91fe-757d9013689", "90478484-0988-45fc-91fe-757d901368922",
+    "9047848a-0988-45fc-91fe-757d90136892", "9047848A-0988-45fc-91fe-757d90136892", "9047848a-098B-45fc-91fe-757d90136892",
+    "9047848a-0988-45fc-91FE-757d90136892", "9047848a-0988-45fc-91fe-757D90136892", "9047848a-0988-45fc-91fe-757d9013689",
+    "{9047848a-0988-45fc-91fe-757d90136892}", "urn:uuid:9047848a-0988-45fc-91fe-757d90136892", "9047848g-0988-45fc-91fe-757d90136892",
+    "100", "0", "00", "1.50", "1.", ".5", "1x2", "1.2.3", "10.010", "0.0", "123456789012345678901234567890", "１２", "-1",
+    "1e5", "1_0", " 1", "1 ", "+1", "0x10", "",
+    # numbers at the edges of other representations: 19..4000 digits (machine words, float mantissa, any digit cap below the
+    # interpreter's conversion limit), fractions that str() would print with an exponent, more significant digits than the
+    # default decimal context keeps, all-zero spellings
+    "9223372036854775807", "9223372036854775808", "18446744073709551616", "9" * 41, "1" + "0" * 100, "7" * 1000, "1" + "0" * 3999, "0" * 50 + "7",
+    "0.1", "0.000001", "0.0000001", "0.00000000000000000001", "1.0000000", "100.0", "1000000.000001", "0.30000000000000004", "000.000", "0000000000.5",
+    "0.12345678901234567890123456789012345", "123456789.123456789123456789123456789", "1" + "0" * 30 + ".5", "9" * 60 + "." + "9" * 60, "1." + "0" * 40 + "1",
+    "00000000-0000-0000-0000-000000000000", "ffffffff-ffff-ffff-ffff-ffffffffffff", "12345678-1234-1234-1234-123456789abc", "12345678-1234-5678-1234-567812345678",
+    "0001-01-01", "0999-12-31", "1000-01-01", "9999-12-31", "1900-02-29", "2000-02-29", "2021-04-31", "2021-12-31", "2021-00-01", "2021-01-00",
+    # text that other layers treat specially
+    "%41", "%2F", "%2f", "a%20b", "%", "%%", "%zz", "a+b", "a b", "a;b=c", "a?b=c", "a#b", "?", "#", ";", " a", "a ", "\ta", "a\t", "\r", "a\r\n", "\x00", "a\x00b",
+    "e\u0301", "é", "\u212a", "\u017f", "\u2028", "\u0085", "a\u2028", "\U0001f600", "{x}", "a:b", "a,b", "a=b", "a&b", "a@b", "~", "'", '"', "<a>", "a|b", "\\",
+]
+
 
 def conv_shard(rec, k, nshards, maxlen):
     g = core.guarded(oracle_conv)
     i = 0
-    extra = [
-        "2021-03-07", "2021-13-45", "0000-01-01", "2020-02-29", "2021-02-29", "2021-1-01", "2021-03-7", "2021-3-7", "2021-03-007", "21-03-07", "٢٠٢١-٠٣-٠٧", "2021-03-07\n",
-        "90478484-0988-45fc-91fe-757d90136892", "90478484-0988-45FC-91fe-757d90136892", "90478484098845fc91fe757d90136892",
-        "9047848-40988-45fc-91fe-757d90136892", "----90478484098845fc91fe757d90136892", "90478484098845fc91fe757d90136892----", "90478484--098845fc-91fe-757d90136892",
-        "90478484-0988-45fc-91fe-757d9013689-", "-0478484-0988-45fc-91fe-757d90136892", "90478484-0988-45fc-91fe-757d9013689", "90478484-0988-45fc-91fe-757d901368922",
-        "9047848a-0988-45fc-91fe-757d90136892", "9047848A-0988-45fc-91fe-757d90136892", "9047848a-098B-45fc-91fe-757d90136892",
-        "9047848a-0988-45fc-91FE-757d90136892", "9047848a-0988-45fc-91fe-757D90136892", "9047848a-0988-45fc-91fe-757d9013689",
-        "{9047848a-0988-45fc-91fe-757d90136892}", "urn:uuid:9047848a-0988-45fc-91fe-757d90136892", "9047848g-0988-45fc-91fe-757d90136892",
-        "100", "0", "00", "1.50", "1.", ".5", "1x2", "1.2.3", "10.010", "0.0", "123456789012345678901234567890", "１２", "-1",
-        "1e5", "1_0", " 1", "1 ", "+1", "0x10", "",
-    ]
-    strings = [""] + ["".join(t) for n in range(1, maxlen + 1) for t in itertools.product(CONV_ALPHABET, repeat=n)] + extra
+    strings = [""] + ["".join(t) for n in range(1, maxlen + 1) for t in itertools.product(CONV_ALPHABET, repeat=n)] + CONV_EXTRA
     for typ in TYPES:
         for tno in range(len(CONV_TEMPLATES)):
             for s in strings:
@@ -247,6 +535,220 @@ def conv_shard(rec, k, nshards, maxlen):
                     rec.skip.add(f.bucket)
 
 
+# ---- enumerated tables --------------------------------------------------------------------
+
+_TPL_TOKEN = re.compile(r"\{(\w+)(?::(\w+))?\}")
+
+
+def parse(template):
+    """'/a/{x:int}.json' -> [["lit", "/a/"], ["p", "x", "int"], ["lit", ".json"]] (harness-side notation only)."""
+    toks, idx = [], 0
+    for m in _TPL_TOKEN.finditer(template):
+        if m.start() > idx:
+            toks.append(["lit", template[idx:m.start()]])
+        toks.append(["p", m.group(1), m.group(2)])
+        idx = m.end()
+    if idx < len(template) or not toks:
+        toks.append(["lit", template[idx:]])
+    return toks
+
+
+UUID_S = "90478484-0988-45fc-91fe-757d90136892"
+BASE = {"str": "ab", None: "ab", "any": "ab", "int": "12", "decimal": "1.5", "uuid": UUID_S, "date": "2021-03-07"}
+
+SPECIAL_CPS = [
+    0x2028, 0x2029, 0x200B, 0x200D, 0x202E, 0x2000, 0x1680, 0x3000, 0xFEFF, 0xFFFD, 0xFFFF, 0xE000,  # separators, blanks, specials
+    0x0660, 0x0663, 0x06F1, 0x0967, 0x0E51, 0xFF10, 0xFF11, 0x1D7CF, 0x00B2, 0x00BD, 0x2460, 0x3007,  # digits that are not ASCII digits
+    0x2044, 0x2215, 0xFF0F, 0x29F8, 0x2024, 0xFF0E, 0xFF0D, 0x2010, 0x2212,  # look-alikes of '/', '.', '-'
+    0x212A, 0x017F, 0x0130, 0x0131, 0xFF21, 0xFF41, 0x0410, 0x0430, 0x0391, 0x03B1, 0x0301, 0x0308, 0x00DF, 0x1E9E,  # case-folding / look-alike letters, combining marks
+    0x4E2D, 0x10000, 0x1F600, 0x10FFFF,
+]
+
+
+def _label_cp(cp):
+    if cp < 0x20 or cp == 0x7F:
+        return "ascii-control"
+    if cp < 0x80:
+        return "ascii-alnum" if chr(cp).isalnum() else "ascii-punct"
+    return "latin-1" if cp < 0x100 else "bmp" if cp < 0x10000 else "astral"
+
+
+def chars_cases(quick):
+    top = 0x100 if quick else 0x3100
+    cps = list(range(0, top)) + [cp for cp in SPECIAL_CPS if cp >= top]
+    for cp in cps:
+        c = chr(cp)
+        for typ in TYPES[:-1]:  # the default type is the str convertor: covered by conv, names and table
+            base = BASE[typ]
+            mid = len(base) // 2
+            routes = [[["lit", "/ka"]], [["lit", "/w/"], ["p", "y", typ], ["lit", ".j"]], [["lit", "/"], ["p", "x", typ]]]
+            paths = ["/" + s for s in (c, base + c, c + base, base[:mid] + c + base[mid:], base[:mid] + c + base[mid + 1:])]
+            paths += ["/w/" + base + c + ".j", "/w/" + c + base + ".j", "/w/" + base + c + "j", "/w/" + base + "." + c]
+            if typ in ("str", "int"):  # literal text with the character appended / inserted / in front / in place of a letter
+                paths += ["/ka" + c, "/k" + c + "a", c + "/ka", "/" + c + "a"]
+            for path in paths:
+                yield {"routes": routes, "path": path, "mutation": "char:" + _label_cp(cp)}
+
+
+NAMES = ["_", "_id", "__", "_1", "id", "ID", "Id", "user_id", "x1", "a", "ab", "abc", "class", "from", "self", "name", "path", "format", "type", "T", "n" * 40]
+SAMPLE = {"str": ["abc"], None: ["abc"], "any": ["a/b", ""], "int": ["42"], "decimal": ["4.20"], "uuid": [UUID_S], "date": ["2021-03-07"]}
+
+
+def names_cases(quick):
+    for name in NAMES:
+        for typ in TYPES:
+            other = "ab" if name == "a" else "a" if name == "ab" else name + "2"
+            tables = [
+                [[["lit", "/u/"], ["p", name, typ]]],
+                [[["lit", "/u/"], ["p", name, "int"]], [["lit", "/u/"], ["p", name, typ]], [["lit", "/"], ["p", name, "any"]]],
+                [[["lit", "/"], ["p", other, None], ["lit", "/"], ["p", name, typ]], [["lit", "/"], ["p", name, None], ["lit", "/"], ["p", other, "any"]]],
+            ]
+            for routes in tables:
+                for s in SAMPLE[typ] + ["7", "!"]:
+                    for path in ("/u/" + s, "/q/" + s):
+                        yield {"routes": routes, "path": path, "mutation": "name"}
+
+
+FIXED_TABLES = [
+    ["/", "/a", "/{x}", "/a/{y:int}", "/{rest:any}"],
+    ["/{rest:any}", "/", "/a", "/a/{y:int}"],
+    ["", "{rest:any}", "/"],
+    ["{rest:any}", ""],
+    ["/"],
+    ["/d/{x:date}", "/d/{y:uuid}", "/d/{z:int}", "/d/{w:decimal}", "/d/{v}", "/d/{u:any}"],
+    ["/d/{u:any}", "/d/{v}", "/d/{w:decimal}", "/d/{z:int}", "/d/{y:uuid}", "/d/{x:date}"],
+    ["/d/{x:date}/{n:int}", "/d/{s}/{n:int}", "/d/{x:date}/{t}", "/{p}/2021-13-45/{q}", "/{rest:any}"],
+    ["/f/{n:int}.{ext}", "/f/{name}.json", "/f/{rest:any}"],
+    ["/a.b", "/a+b", "/a/", "/a", "/a?x", "/a;x=1", "/a%2Fb", "/a b"],
+    ["/é", "/e\u0301", "/{x}"],
+    ["/e\u0301", "/é", "/{x}"],
+    ["/ka", "/KA", "/{x:int}"],
+    ["/KA", "/{x}"],
+    ["/p/{amount:decimal}/{cur}", "/p/{amount:decimal}{unit}/{n:int}", "/a.b/{x}", "/a.b/{x:int}/c.d"],
+]
+FIXED_PATHS = [
+    "", "/", "//", "/a", "/a/", "/a/1", "/a/01", "/a/x", "/a/1/", "/A", "a", "/a\n", "/\n", "\n", " ", "/ ", " /", "/a ", "/a/1 ",
+    "/d/2021-03-07", "/d/2021-13-45", "/d/0000-01-01", "/d/2021-02-29", "/d/2020-02-29", "/d/2021-02-30", "/d/" + UUID_S, "/d/" + UUID_S[:-1] + "X", "/d/" + UUID_S.upper(),
+    "/d/12", "/d/12.5", "/d/12.", "/d/٣", "/d/x", "/d/x/y", "/d/", "/d", "/d/2021-13-45/7", "/d/2021-03-07/7", "/d/2021-13-45/x", "/d/2021-03-07/x", "/d/2021-13-45/7/8",
+    "/f/1.json", "/f/a.json", "/f/1.2.json", "/f/.json", "/f/a/b.json", "/f/1.", "/f/1",
+    "/a.b", "/aXb", "/a+b", "/aab", "/é", "/e\u0301", "/e", "/ka", "/KA", "/Ka", "/\u212aa", "/\u212aA", "/ka\u0301",
+    "/p/1.5/eur", "/p/1/eur", "/p/1.5kg/3", "/p/1.kg/3", "/p/15/3", "/a.b/1", "/aXb/1", "/a.b/1/c.d", "/a.b/1/cXd", "/a.b/1/c.d\n",
+    "/a;x=1", "/a;", "/a?x", "/a?", "/a#x", "/a%2Fb", "/a%2fb", "/a/b", "/a%20b", "/a b", "/a+b", "/a/%31", "/a/1?", "/a/1;v=2", "/a/1#f", "/a/+1", "/a/1%0A",
+]
+
+
+def fixed_cases(quick):
+    for tbl in FIXED_TABLES:
+        routes = [parse(t) for t in tbl]
+        for path in FIXED_PATHS:
+            yield {"routes": routes, "path": path, "mutation": "fixed"}
+
+
+REQUEST_TABLES = [FIXED_TABLES[0], FIXED_TABLES[1], FIXED_TABLES[2], ["/mnt/a", "/a/{y:int}", "/mnt"]]
+REQUEST_PATHS = ["", "/", "/a", "/a/1", "/zz/y", "/mnt/a"]
+METHODS = ["GET", "HEAD", "POST", "PUT", "DELETE", "PATCH", "OPTIONS", "PROPFIND"]
+
+
+def request_cases(quick):
+    for tbl in REQUEST_TABLES:
+        routes = [parse(t) for t in tbl]
+        for path in REQUEST_PATHS:
+            roots = ["", "/mnt", "/a"] + ([path] if path not in ("", "/mnt", "/a") else [])
+            for method in METHODS:
+                for root_path in roots:
+                    for query in ("", "x=1", "/a"):
+                        for omit in ((False, True) if path == "" else (False,)):
+                            yield {"routes": routes, "path": path, "method": method, "root_path": root_path, "query": query, "omit_path_info": omit, "ws": False}
+                        if method == "GET":
+                            yield {"routes": routes, "path": path, "method": method, "root_path": root_path, "query": query, "omit_path_info": False, "ws": True}
+
+
+BYTES_TABLES = [["/a", "/a/b", "/é", "/x/12"], ["/a", "/{x}"], ["/a", "/{r:any}"], ["/x/{n:int}", "/x/{d:date}", "/x/{u:uuid}"], ["/a/{s}/b", "/a/b"]]
+BYTES_BASES = [b"/a", b"/a/b", b"/\xc3\xa9", b"/x/12", b"/x/2021-03-07", b"/x/" + UUID_S.encode(), b"/a/q/b", b"/"]
+BAD_BYTES = [b"\xff", b"\x80", b"\xbf", b"\xc3", b"\xe2\x82", b"\xf0\x9f\x98", b"\xed\xa0\x80", b"\xc0\xaf", b"\xc0\x80", b"\xf8\x88\x80\x80\x80", b"\xfe", b"\xc3\x28"]
+
+
+def bytes_cases(quick):
+    for tbl in BYTES_TABLES:
+        routes = [parse(t) for t in tbl]
+        for base in BYTES_BASES:
+            yield {"routes": routes, "path_bytes": base}
+            for bad in BAD_BYTES:
+                for pos in sorted({len(base), 1, len(base) // 2 + 1, 0}):
+                    if 0 < pos < len(base) and (base[pos] & 0xC0) == 0x80:
+                        continue  # not inside a multi-byte character of the base text
+                    yield {"routes": routes, "path_bytes": base[:pos] + bad + base[pos:]}
+
+
+SEQ_TABLES = [
+    (["/a/{x:int}", "/a/{x}", "/b/{y:date}", "/{rest:any}"], ["/a/1", "/a/2", "/a/b", "/b/2021-03-07", "/b/2021-13-45", "/zz", ""]),
+    (["/{x}", "/s", "/s/{rest:any}"], ["/s", "/t", "/s/a/b", "/s/", "", "/s/a/b/", "/1"]),
+]
+
+
+def seq_fixed_cases(quick):
+    for tbl, pool in SEQ_TABLES:
+        routes = [parse(t) for t in tbl]
+        for n in (2, 3):
+            for paths in itertools.product(pool, repeat=n):
+                for mode in MODES:
+                    yield {"routes": routes, "paths": list(paths), "mode": mode}
+
+
+NESTED = [
+    (["/api/{_:any}", "/{rest:any}"], 0, ["/api/users", "/api/users/{id:int}", "/api/{name}/x", "/api/{_}/y/{z:date}"]),
+    (["/{version}/{rest:any}", "/about"], 0, ["/v1/items", "/{v}/items/{id:int}", "/v1/{rest:any}"]),
+    (["/api/status", "/api/{_:any}", "/{a}/{b}"], 1, ["/api/status", "/api/{x:decimal}", "/api/{a}/{b}"]),
+    (["/static/{filepath:any}", "/api"], 1, ["/api", "/{x}"]),
+]
+NESTED_PATHS = ["/api/users", "/api/users/5", "/api/users/x", "/api/bob/x", "/api/bob/y/2021-03-07", "/api/bob/y/2021-13-45", "/api/none/none/none", "/api/", "/api", "/api/status",
+                "/api/1.5", "/other", "/about", "/v1/items", "/v1/items/9", "/v2/items/9", "/v1/x/y", "/v1/", "/static/a/b", "", "/"]
+
+
+NESTED_MOUNTED = [
+    (["/{rest:any}"], 0, "/api", ["/users", "/users/{id:int}", "/{name}/x", "", "/"]),
+    (["/api/{_:any}", "/{rest:any}"], 0, "/api", ["/users/{id:int}", "/{rest:any}"]),
+    (["/x", "/{a}/{b:any}"], 1, "/v1", ["/items", "/items/{id:int}", "/v1/items"]),
+]
+
+
+def nested_cases(quick):
+    for outer, mount, inner in NESTED:
+        for path in NESTED_PATHS:
+            yield {"outer": [parse(t) for t in outer], "mount": mount, "inner": [parse(t) for t in inner], "path": path}
+    for outer, mount, prefix, inner in NESTED_MOUNTED:
+        for path in NESTED_PATHS + ["/apix/users", "/v1/v1/items", "/api/users/"]:
+            yield {"outer": [parse(t) for t in outer], "mount": mount, "prefix": prefix, "inner": [parse(t) for t in inner], "path": path}
+
+
+ENUMS = {
+    "chars": (chars_cases, oracle_table),
+    "names": (names_cases, oracle_table),
+    "fixed": (fixed_cases, oracle_table),
+    "request": (request_cases, oracle_request),
+    "wsgi_bytes": (bytes_cases, oracle_wsgi_bytes),
+    "seq_fixed": (seq_fixed_cases, oracle_seq),
+    "nested": (nested_cases, oracle_nested),
+}
+
+
+def enum_shard(rec, k, nshards, sub, quick):
+    cases, oracle = ENUMS[sub]
+    g = core.guarded(oracle)
+    for i, case in enumerate(cases(quick)):
+        if i % nshards != k:
+            continue
+        res = g(case)
+        rec.count(sub, case, res)
+        new, old = rec.split(res)
+        rec.note_known(old)
+        for f in new:
+            rec.add_violation(sub, f, case)
+            rec.skip.add(f.bucket)
+
+
+# ---- random tables ------------------------------------------------------------------------
+
 _LIT = st.one_of(
     st.sampled_from(
         ["/", "/a", "/b", "/api", "/a.b", "/a+b", "/a*", "/a?", "/(x)", "/[x]", "/x|y", "/^a$", "/a\\d", "/v", ".json", "-", "_", "/é", "/中", "/a/", "//", ".", "/a.", "/user"]
@@ -254,6 +756,7 @@ _LIT = st.one_of(
     st.text(alphabet="/ab.+*?()[]|^$\\-_é1", min_size=1, max_size=4),
 )
 _TYPE = st.sampled_from(TYPES)
+_NAME = st.sampled_from(["_", "_id", "id", "ID", "user_id", "x1", "a", "ab", "name", "rest"])
 
 
 @st.composite
@@ -268,7 +771,12 @@ def route_strategy(draw):
             # adjacent placeholders are rare and labelled by the oracle via matching counts
             if toks and toks[-1][0] == "p" and draw(st.integers(0, 9)) > 0:
                 toks.append(["lit", draw(st.sampled_from(["/", "-", ".", "/x/", "_"]))])
-            toks.append(["p", f"p{pcount}", draw(_TYPE)])
+            name = f"p{pcount}"
+            if draw(st.integers(0, 3)) == 0:
+                other = draw(_NAME)
+                if all(tok[0] != "p" or tok[1] != other for tok in toks):
+                    name = other
+            toks.append(["p", name, draw(_TYPE)])
             pcount += 1
         else:
             if toks and toks[-1][0] == "lit":
@@ -281,24 +789,25 @@ def route_strategy(draw):
 def sample_language(draw, typ):
     typ = typ or "str"
     if typ == "str":
-        return draw(st.one_of(st.sampled_from(["a", "abc", "1", "a.b", "x y", "é", "a\nb", "123", "2021-03-07"]), st.text(alphabet="ab1.-_é\n", min_size=1, max_size=5)))
+        return draw(st.one_of(st.sampled_from(["a", "abc", "1", "a.b", "x y", "é", "a\nb", "123", "2021-03-07", "a?b", "a#b", "a;b=1", "%41", "a%2Fb", "a+b", " a", "a ", "e\u0301", "\u212a"]),
+                              st.text(alphabet="ab1.-_é\n", min_size=1, max_size=5)))
     if typ == "int":
-        return draw(st.one_of(st.sampled_from(["0", "1", "10", "007", "123456789012345678901234567890"]), st.text(alphabet="0123456789", min_size=1, max_size=6)))
+        # longer digit runs are in conv only: adjacent numeric placeholders make the regex engine polynomial in the run length
+        return draw(st.one_of(st.sampled_from(["0", "1", "10", "007", "123456789012345678901234567890", "9" * 45]), st.text(alphabet="0123456789", min_size=1, max_size=6)))
     if typ == "decimal":
-        return draw(st.sampled_from(["0", "1", "100", "1.5", "0.0", "10.010", "123.09", "00", "3.14159", "1000000.000001"]))
+        return draw(st.sampled_from(["0", "1", "100", "1.5", "0.0", "10.010", "123.09", "00", "3.14159", "1000000.000001", "0.0000001", "100.0", "0.12345678901234567890123456789012345"]))
     if typ == "uuid":
         return draw(st.uuids()).__str__()
     if typ == "date":
         return draw(st.one_of(st.sampled_from(["2021-03-07", "2020-02-29", "0001-01-01", "9999-12-31"]), st.dates().map(lambda d: d.isoformat())))
-    return draw(st.one_of(st.sampled_from(["", "a", "a/b", "a/b/c", "x\ny", "/", "a/"]), st.text(alphabet="ab/\n.1", max_size=6)))
+    return draw(st.one_of(st.sampled_from(["", "a", "a/b", "a/b/c", "x\ny", "/", "a/", "a?b/c#d", "%2F", "a;b"]), st.text(alphabet="ab/\n.1", max_size=6)))
 
 
 MUTATIONS = ["none", "none", "extra-segment", "missing-char", "empty-segment", "trailing-slash", "trailing-newline", "unicode-digit",
              "upper", "dot", "letter-in-number", "bad-date", "bad-uuid", "literal-char", "unrelated", "huge-int", "prefix-junk", "suffix-junk"]
 
 
-@st.composite
-def table_case(draw):
+def _draw_routes(draw):
     routes = draw(st.lists(route_strategy(), min_size=1, max_size=6))
     # overlapping routes: sometimes re-type a copy of an existing route, or add a catch-all
     if draw(st.booleans()):
@@ -307,7 +816,10 @@ def table_case(draw):
         routes.insert(draw(st.integers(0, len(routes))), clone)
     if draw(st.integers(0, 4)) == 0:
         routes.insert(draw(st.integers(0, len(routes))), [["lit", "/"], ["p", "rest", "any"]])
-    routes = routes[:6]
+    return routes[:6]
+
+
+def _draw_path(draw, routes):
     base = draw(st.sampled_from(routes))
     parts = []
     for tok in base:
@@ -379,12 +891,62 @@ def table_case(draw):
         path = "/zz" + path
     elif mutation == "suffix-junk":
         path = path + "zz"
-    return {"routes": routes, "path": path, "mutation": mutation}
+    return path, mutation
+
+
+@st.composite
+def table_case(draw):
+    routes = _draw_routes(draw)
+    path, mutation = _draw_path(draw, routes)
+    case = {"routes": routes, "path": path, "mutation": mutation}
+    # the request around the path: none of it takes part in the dispatch
+    if draw(st.integers(0, 3)) == 0:
+        case["method"] = draw(st.sampled_from(["HEAD", "POST", "PUT", "DELETE", "PATCH", "OPTIONS"]))
+    if draw(st.integers(0, 3)) == 0:
+        cut = path.find("/", 1)
+        case["root_path"] = draw(st.sampled_from(["/mnt", path[:cut] if cut > 0 else "/mnt", path if path.startswith("/") and len(path) > 1 else "/mnt"]))
+    if draw(st.integers(0, 5)) == 0:
+        case["query"] = draw(st.sampled_from(["x=1", "/a", "path=/", "a=b&c=d"]))
+    return case
+
+
+@st.composite
+def seq_case(draw):
+    routes = _draw_routes(draw)
+    n = draw(st.integers(2, 6))
+    paths = []
+    for _ in range(n):
+        if paths and draw(st.integers(0, 2)) == 0:
+            paths.append(draw(st.sampled_from(paths)))  # the same path again
+        else:
+            paths.append(_draw_path(draw, routes)[0])
+    return {"routes": routes, "paths": paths, "mode": draw(st.sampled_from(MODES))}
+
+
+def _enum(rec, sub, quick, sharded):
+    if rec.only is not None and sub not in rec.only:
+        return
+    if sharded and core.ncpu() > 1:
+        core.run_sharded(rec, enum_shard, 16, core.ncpu(), (sub, quick))
+    else:
+        cases, oracle = ENUMS[sub]
+        core.drive_cases(rec, sub, cases(quick), oracle)
+    rec.exhaustive[sub] = True
 
 
 def run(rec, only=None):
     quick = rec.tier == "quick"
-    core.run_sharded(rec, conv_shard, 16, core.ncpu(), (3 if quick else 4,))
-    rec.exhaustive["conv"] = True
-    core.drive_hypothesis(rec, "table", table_case(), oracle_table, 5000 if quick else 60000)
+    if rec.only is None or "conv" in rec.only:
+        core.run_sharded(rec, conv_shard, 16, core.ncpu(), (3 if quick else 4,))
+        rec.exhaustive["conv"] = True
+    _enum(rec, "chars", quick, True)
+    _enum(rec, "names", quick, False)
+    _enum(rec, "fixed", quick, False)
+    _enum(rec, "request", quick, True)
+    _enum(rec, "wsgi_bytes", quick, False)
+    _enum(rec, "seq_fixed", quick, True)
+    _enum(rec, "nested", quick, False)
+    core.drive_hypothesis(rec, "table", table_case(), oracle_table, 3500 if quick else 60000)
     rec.exhaustive["table"] = False
+    core.drive_hypothesis(rec, "seq", seq_case(), oracle_seq, 300 if quick else 12000, seed_offset=1)
+    rec.exhaustive["seq"] = False
